@@ -351,7 +351,7 @@ PLANS["C14"] = dict(
         dict(name="sequential", gen=dict(module="MC_CRLCache_C15", cfg=lambda tier, seed: mc_cfg(["Inv_C15", "Inv_Emit"], consts=['URLs = {"u1"}', "Bundles <- MCBundlesSmall",
                                                                                                                      'Corruptions = {"bitflip"}', "Depth = 5" if tier == "thorough" else "Depth = 4"]),
                                        select=slicer2(12000, 120000)),
-             drive=dict(driver="crl-seq"), validate=dict(module="Trace_CRLCacheSeq", cfg=C15_TRACE)),
+             drive=dict(driver="crl-seq", extra=lambda tier, seed: ["-workers", "1"]), validate=dict(module="Trace_CRLCacheSeq", cfg=C15_TRACE)),
         # readers without pause against writers without pause (a few seconds, several hundred thousand reads): per-reader counts
         dict(name="hammer", drive=dict(driver="crl-hammer"), validate=dict(module="Trace_CRLHammer", cfg=trace_cfg(), recheck=False)),
         dict(name="free-running",
